@@ -107,7 +107,7 @@ Section Theorems2.
     - unfold do_stop. destruct (r_state st); exact H.
     - unfold do_crash. destruct (r_state st); exact H.
     - unfold do_finish. destruct (r_state st); try exact H. destruct (forallb (fun p => null (snd p)) (r_queue st)); [|exact H].
-      cbn. destruct (0 <? r_changed st); [|exact H]. apply Forall_app. split; [exact H | constructor; [reflexivity | constructor]].
+      cbn. destruct (sw_inval fixed || (0 <? r_changed st)); [|exact H]. apply Forall_app. split; [exact H | constructor; [reflexivity | constructor]].
     - exact H.
   Qed.
 
@@ -120,14 +120,15 @@ Section Theorems2.
 
   (* the end of a run: principals are invalidated exactly when the run's counter is positive *)
   Theorem finish_invalidates : forall (st : rst) pseqs, r_state st = MRunning -> forallb (fun p => null (snd p)) (r_queue st) = true ->
-    let st' := do_finish allcols st pseqs in
+    let st' := do_finish allcols fixed st pseqs in
     r_state st' = MCompleted /\
-    (0 < r_changed st -> r_ps st' = invalidate_all (r_ps st) /\ r_log st' = r_log st ++ [allcols] /\ r_dirty st' = false) /\
-    (r_changed st = 0 -> r_ps st' = r_ps st /\ r_log st' = r_log st /\ r_dirty st' = r_dirty st).
+    (sw_inval fixed = true \/ 0 < r_changed st ->
+       r_ps st' = invalidate_all (r_ps st) /\ r_log st' = r_log st ++ [allcols] /\ r_dirty st' = false) /\
+    (sw_inval fixed = false -> r_changed st = 0 -> r_ps st' = r_ps st /\ r_log st' = r_log st /\ r_dirty st' = r_dirty st).
   Proof.
-    intros st pseqs Hs Hq. unfold do_finish. rewrite Hs, Hq. cbn. split; [reflexivity|]. split; intros H.
-    - apply N.ltb_lt in H. rewrite H. auto.
-    - rewrite H. cbn. auto.
+    intros st pseqs Hs Hq. unfold do_finish. rewrite Hs, Hq. cbn. split; [reflexivity|]. split.
+    - intros [H|H]; [rewrite H; cbn; auto|]. apply N.ltb_lt in H. rewrite H, orb_true_r. auto.
+    - intros H1 H2. rewrite H1, H2. cbn. auto.
   Qed.
 
   (* ================================================================ (3) the documents that are stale after a completed run *)
@@ -223,7 +224,8 @@ Section Theorems2.
     - unfold do_finish. destruct (r_state st) eqn:Es; try exact D.
       destruct (forallb (fun p => null (snd p)) (r_queue st)); [|exact D].
       unfold DInv. cbn. split; [intros _; apply D1; discriminate|].
-      destruct (0 <? r_changed st) eqn:E; [reflexivity|].
+      destruct (sw_inval fixed || (0 <? r_changed st)) eqn:E; [reflexivity|].
+      apply orb_false_iff in E. destruct E as [_ E].
       destruct (r_dirty st); [|reflexivity]. specialize (D2 eq_refl). apply N.ltb_ge in E. lia.
     - unfold do_load, DInv in *. cbn. exact D.
   Qed.
